@@ -565,8 +565,8 @@ func init() {
 		Random: func(tier string) int { return map[string]int{"quick": 1500, "thorough": 80000}[tier] },
 		Run:    runC18,
 		Level:  "fault_enumeration",
-		Rule: "enumerated part: a write fault (short count + error, sticky) at every absolute byte offset k=0..760 of the output of a fixed 5-record/3-batch corpus, and a Close fault, for WriteSeqFileChunk and the FASTA/FASTQ/JSON/CSV writers, plain and gzip; random part: random corpora (outputs <4 KiB, 4-64 KiB, >64 KiB), arrival orders, 1-4 formatting workers, offsets stratified (0, 1, last byte, 4 KiB boundaries +-1, uniform) and Close faults, each after a separate fault-free control run. distinct = distinct (writer, compression, fault kind, offset, phase at which the endpoint failed, arrival order, schedule signature); non-trivial = the fault actually fired",
-		Real: []string{"obiformats.WriteSeqFileChunk", "obiformats.WriteFasta/WriteFastq/WriteJSON/WriteCSV", "obiutils.CompressStream / Wfile (bufio + pgzip)", "obiiter iterators", "logrus Fatal path (exit captured)"},
-		Stub: []string{"output endpoint (simrt.SimWriteCloser with a fault plan)", "sync primitives and scheduler (simrt)", "process exit (captured as the run's outcome)", "upstream pipeline (harness injector task)"},
+		Rule:   "enumerated part: a write fault (short count + error, sticky) at every absolute byte offset k=0..760 of the output of a fixed 5-record/3-batch corpus, and a Close fault, for WriteSeqFileChunk and the FASTA/FASTQ/JSON/CSV writers, plain and gzip; random part: random corpora (outputs <4 KiB, 4-64 KiB, >64 KiB), arrival orders, 1-4 formatting workers, offsets stratified (0, 1, last byte, 4 KiB boundaries +-1, uniform) and Close faults, each after a separate fault-free control run. distinct = distinct (writer, compression, fault kind, offset, phase at which the endpoint failed, arrival order, schedule signature); non-trivial = the fault actually fired",
+		Real:   []string{"obiformats.WriteSeqFileChunk", "obiformats.WriteFasta/WriteFastq/WriteJSON/WriteCSV", "obiutils.CompressStream / Wfile (bufio + pgzip)", "obiiter iterators", "logrus Fatal path (exit captured)"},
+		Stub:   []string{"output endpoint (simrt.SimWriteCloser with a fault plan)", "sync primitives and scheduler (simrt)", "process exit (captured as the run's outcome)", "upstream pipeline (harness injector task)"},
 	})
 }
